@@ -29,7 +29,8 @@ AM_ENVS = ["tsp", "cvrp", "cvrptw", "sdvrp", "svrp", "op", "pctsp", "spctsp", "p
 COMBOS = ([("am", e) for e in AM_ENVS]
           + [("ptrnet", "tsp"), ("ham", "pdp"), ("mdam", "tsp"), ("mdam", "cvrp"),
              ("polynet", "tsp"), ("polynet", "cvrp"), ("symnco", "tsp"), ("symnco", "cvrp"),
-             ("matnet", "atsp"), ("l2d", "fjsp"), ("l2d", "jssp"), ("nar", "tsp"), ("nar", "cvrp")])
+             ("matnet", "atsp"), ("l2d", "fjsp"), ("l2d", "jssp"), ("nar", "tsp"), ("nar", "cvrp"),
+             ("mvmoe", "tsp"), ("mvmoe", "cvrp"), ("mvmoe", "cvrptw")])
 
 EXCLUDED = [
     "MatNetPolicy x ffsp: constructor raises TypeError (out_bias) - cannot be built",
@@ -55,6 +56,12 @@ def sample_policy_spec(name: str, env_name: str, rng) -> dict:
             "embed_dim": 32, "layers": rng.choice([1, 1, 2]), "heads": rng.choice([1, 2, 4]), "kw": {}}
     if name in ("am", "ham", "symnco", "mdam"):
         spec["kw"]["normalization"] = rng.choice(NORMS if name != "mdam" else ["batch", "instance"])
+    if name == "mvmoe":
+        # attention model with mixture-of-experts feed-forward blocks (MVMoE): encoder MoE, optionally the
+        # hierarchical (non-light) decoder MoE; the light decoder gate averages over the batch and samples by design
+        spec["kw"]["normalization"] = rng.choice(["instance", "batch"])
+        spec["kw"]["moe"] = {"num_experts": rng.choice([2, 4]), "k": rng.choice([1, 2]),
+                             "decoder": rng.random() < 0.5}
     if name == "polynet":
         spec["kw"]["k"] = rng.choice([2, 3, 4])
         spec["kw"]["normalization"] = rng.choice(["instance", "batch"])
@@ -92,6 +99,12 @@ def make_policy(spec: dict):
         p = MatNetPolicy(**base, **kw)
     elif name == "l2d":
         p = L2DPolicy(env_name=env_name, embed_dim=d, num_encoder_layers=layers, **kw)
+    elif name == "mvmoe":
+        moe = kw.pop("moe")
+        enc = {"hidden_act": "ReLU", "num_experts": moe["num_experts"], "k": moe["k"], "noisy_gating": True}
+        dec = {"light_version": False, "num_experts": moe["num_experts"], "k": moe["k"], "noisy_gating": True} \
+            if moe["decoder"] else None
+        p = AttentionModelPolicy(feedforward_hidden=2 * d, moe_kwargs={"encoder": enc, "decoder": dec}, **base, **kw)
     elif name == "nar":  # real NonAutoregressivePolicy/Decoder behind a stub heatmap encoder (policies.py)
         from .policies import make_nar_policy
 
